@@ -96,7 +96,7 @@ CHECKS["C13"] = dict(
 
 CHECKS["C15"] = dict(
     text=("Theorems over R about the Gallina model: map_tfunc_to_vfunc conserves totals (weighted: the area integral, with the coded "
-          "Heron areas proved equal to |cross|/2, and the constant 1 is mapped to exactly the list vertex_areas() returns: TfuncAreasP); map_vfunc_to_tfunc is the corner mean and maps constants to constants; one smoothing "
+          "Heron areas proved equal to |cross|/2, and the constant 1 is mapped to exactly the list vertex_areas() returns: TfuncAreasP); map_vfunc_to_tfunc is the corner mean, linear (TfuncLinearP) and maps constants to constants; one smoothing "
           "step is exactly the mean over the distinct edge neighbours (vertex areas cancel), hence weights >= 0 summing to 1 on "
           "neighbours, linear, fixes constants, and k steps stay in [lo,hi] (induction). Column-wise action, ValueError on wrong length, "
           "smooth_ and dtype handling are tied by correspondence + oracles. The clause 'map_tfunc_to_vfunc maps constants to constants' "
